@@ -909,6 +909,20 @@ fn gcm_case(out: &mut Out, id: &str, key: &[u8; 32], nonce: &[u8; 12], aad: &[u8
         let mut d = mla::crypto::aesgcm::AesGcm256::new(key, nonce, aad).expect("new");
         let mut back = ct.clone();
         let dtag = d.decrypt(&mut back).to_vec();
+        // decrypt_unauthenticated fed the ciphertext in the same pieces gives the message too
+        let mut u = mla::crypto::aesgcm::AesGcm256::new(key, nonce, aad).expect("new");
+        let mut uback = Vec::new();
+        let mut q = 0usize;
+        for s in sizes {
+            let e = (q + s).min(ct.len());
+            let mut buf = ct[q..e].to_vec();
+            u.decrypt_unauthenticated(&mut buf);
+            uback.extend_from_slice(&buf);
+            q = e;
+        }
+        if uback != msg {
+            back = vec![0xEE; msg.len() + 1]; // reported below as a decrypt failure
+        }
         (ct, tag, back, dtag, p)
     });
     // the oracle: RustCrypto aes-gcm, one shot
@@ -920,7 +934,7 @@ fn gcm_case(out: &mut Out, id: &str, key: &[u8; 32], nonce: &[u8; 12], aad: &[u8
             let o = if fed != msg.len() { Err("harness: split does not cover the message".to_string()) }
                     else if ct != sct { Err("ciphertext differs from the standard AES-256-GCM ciphertext".into()) }
                     else if tag != stag { Err("tag differs from the standard AES-256-GCM tag".into()) }
-                    else if back != msg || dtag != stag { Err("decrypt does not return the message and the standard tag".into()) }
+                    else if back != msg || dtag != stag { Err("decrypt (one call) / decrypt_unauthenticated (same pieces) does not return the message and the standard tag".into()) }
                     else { Ok(()) };
             (json!([ct.iter().map(|b| *b as u64).collect::<Vec<_>>(), tag.iter().map(|b| *b as u64).collect::<Vec<_>>()]), o)
         }
@@ -1000,6 +1014,27 @@ pub fn c06_cases(rng: &mut Rng, tier: &str, out: &mut Out) {
             nmodel_enc += 1;
         }
         case_a(rng, out, &format!("c06-a-{k}"), &plan, scaled && (thorough || k < 40), full_x);
+    }
+    // (a') every interleaving of up to 4 (quick) / 5 (thorough) pieces of sizes {0, 3} over two files
+    // started up front (empty pieces given to the file that is / is not being written): the index
+    // the writer leaves must be the one FORMAT.md describes (offsets of blocks of the SAME file)
+    if scaled {
+        let maxlen = if thorough { 5 } else { 4 };
+        let names = vec![b"a".to_vec(), b"b".to_vec()];
+        for len in 1..=maxlen {
+            for code in 0..(4usize.pow(len as u32)) {
+                let mut c = code;
+                let mut pieces = vec![(0usize, Vec::new()), (1usize, Vec::new())];
+                for j in 0..len {
+                    let f = c & 1;
+                    let sz = if c & 2 != 0 { 3 } else { 0 };
+                    c >>= 2;
+                    pieces.push((f, (0..sz).map(|i| (16 * j + i + 1) as u8).collect::<Vec<u8>>()));
+                }
+                let plan = archive::Plan { names: names.clone(), pieces, layers: 0, level: 5, recipients: 1, reader_key: 0 };
+                case_a(rng, out, &format!("c06-a-x{len}-{code}"), &plan, false, false);
+            }
+        }
     }
     if !scaled {
         // production constants: sizes crossing the 128 KiB chunk edges and one 4 MiB block edge
